@@ -47,6 +47,8 @@ func main() {
 		cmdPubSub(os.Args[2:])
 	case "wire":
 		cmdWire(os.Args[2:])
+	case "evict":
+		cmdEvict(os.Args[2:])
 	default:
 		die(2, "unknown driver %q", os.Args[1])
 	}
